@@ -25,7 +25,8 @@ from pathlib import Path
 
 import common
 import pfcommon
-from common import Outcome, Scratch, pmap, tlc
+from common import Outcome, Scratch, pmap
+from pfcommon import tlc
 
 PID = "C05"
 
@@ -191,7 +192,7 @@ def run_b(o: Outcome, tier: str) -> None:
         why = f"{{{{#expr: {' '.join(pfcommon.conc_tok(t)[:24] for t in toks)}}}}} raised {txt}"
         cls = "b-expr-" + txt.split(":")[0]
         if i in explained:
-            o.classify(rec, why, ["ExprNoExceptionBarrier"], cls=cls)
+            o.classify(rec, why, ["ExprEIntegerLoopUnbounded" if txt.startswith("Timeout") else "ExprNoExceptionBarrier"], cls=cls)
         else:
             o.violation(rec, why + " (the as-is model does not predict this one)", cls=cls)
 
